@@ -2,7 +2,11 @@
 
 Proof side (lean/SigpyVerif/Props/C10.lean): sigpy's glue (generated padding formula and call signatures,
 pad/crop index maps) and the mathematics of one zero-extended filter-bank level for any filter pair
-satisfying completeness (adjoint, perfect reconstruction, isometry; Haar instance; levels and axes).
+satisfying completeness (adjoint, perfect reconstruction, isometry; Haar instance; levels and axes); the executed
+multi-level 1-D list model incl. pywt.waverec's trimming rule (perfect reconstruction, adjoint, isometry at every
+level count and length) and the full 1-D sigpy pipeline fwt1/iwt1 (pad, wavedec, pack | unpack, waverec, crop);
+separable N-d at level 1 over an arbitrary list of axes; `Complete` from the orthonormality of dec_lo alone when
+dec_hi is its alternating flip (checked for every pywt wavelet by the `filters` stream).
 Contract side (this file, `correspond`): PyWavelets' filters satisfy the hypotheses (1e-10) and its
 dwt/idwt/wavedec/waverec/packing compute the modelled formulas — the Lean driver executes the model exactly
 in rationals (float filter taps are dyadic rationals and are passed exactly; inputs are integers) and the
@@ -23,13 +27,26 @@ from harness.translate import gen as G
 PROPERTY = "C10"
 LEAN_MODULES = ["SigpyVerif.Props.C10"]
 THEOREMS = ["SigpyVerif.C10." + t for t in [
-    "zshape_spec", "shape_consistent", "inverse_mirrors_forward", "pad_extra_zero_in_front",
+    "zshape_spec", "zshape_sites_agree", "shape_consistent", "inverse_mirrors_forward", "pad_extra_zero_in_front",
     "crop_is_pad_adjoint", "pad_crop",
     "synthesis_is_adjoint", "qmf_perfect_reconstruction", "qmf_isometry_1level",
     "haar_supported", "haar_complete", "haar_orthonormal", "haar_real",
     "isometry_comp", "adjoint_comp", "qmf_isometry_rows", "qmf_isometry_cols",
     "dwt1_isometry", "wavedec_isometry", "wavedec_packed_isometry",
     "complete_window", "supportedOn_ofList", "sumN_eq_sum",
+    # multi-level list model (executed by the driver): perfect reconstruction and adjointness incl. trimming rule
+    "idwt1_dwt1", "waverec_wavedec", "wavedec_perfect_reconstruction", "wavedec_perfect_reconstruction_take",
+    "dwt1_adjoint", "waverec_length", "wavedec_map_length", "wavedec_adjoint",
+    # full 1-D sigpy pipeline
+    "resize1d", "pad_list", "crop_list", "fwt1_iwt1_id", "fwt1_isometry", "fwt1_length", "iwt1_is_adjoint",
+    # separable N-d at level 1: per-axis maps over an arbitrary list of axes
+    "boxSum_alongAxis_sq", "boxSum_alongAxis_adj", "alongAxis_left_inverse",
+    "applyAxes_isometry", "applyAxes_adjoint", "applyAxes_left_inverse",
+    "level1Map_isIso", "level1Map_isAdj", "level1Map_isInv", "padMap_isIso", "padMap_isAdj", "padMap_isInv",
+    "fwtn_level1_isometry", "fwtn_level1_adjoint", "fwtn_level1_pr", "fwt1_level1_eq",
+    # Complete from the orthonormality of dec_lo alone (dec_hi = alternating flip)
+    "finsum_even_odd", "finsum_shift2", "finsum_flip2", "ofList_altFlipL", "supportedOn_altFlip",
+    "complete_of_qmf_pair", "complete_of_orthonormal_lo", "fwt1_iwt1_id_qmf", "fwt1_isometry_qmf", "ofList_haar",
 ]]
 
 FAMILIES = ("haar", "db", "sym", "coif")
@@ -126,6 +143,7 @@ def stream_filters(ctx):
     import pywt
     bad = 0
     worst = 0.0
+    worst_flip = 0.0
     for name in all_wavelets():
         w = pywt.Wavelet(name)
         h, g = np.array(w.dec_lo, dtype=float), np.array(w.dec_hi, dtype=float)
@@ -152,14 +170,19 @@ def stream_filters(ctx):
                         for k in range(-L, L + 1))
                 e = max(e, abs(s - (n == n2)))
         errs["complete"] = e
+        # dec_hi IS the alternating flip of dec_lo, pywt's sign convention s = -1: g[j] = (-1)^(j+1) h[L-1-j]
+        # (hypothesis of `complete_of_qmf_pair`: with it `Complete` follows from the orthonormality of dec_lo)
+        errs["altflip"] = max(abs(g[j] - (-1) ** (j + 1) * h[L - 1 - j]) for j in range(L)) if len(g) == L else 1.0
+        worst_flip = max(worst_flip, errs["altflip"])
         worst = max(worst, errs["orthonormal"], errs["complete"])
         for k, v in errs.items():
             if not v <= FILTER_TOL:
                 bad += 1
                 ctx.disagree("filters", dict(kind="filters", wavelet=name, which=k), v, "<= %g" % FILTER_TOL)
-    ctx.notes.append("filters: worst orthonormality/completeness residual of pywt's taps %.2e (tolerance %g)" % (worst, FILTER_TOL))
+    ctx.notes.append("filters: worst orthonormality/completeness residual of pywt's taps %.2e (tolerance %g); "
+                     "dec_hi vs alternating flip of dec_lo: max difference %.1e (exact when 0)" % (worst, FILTER_TOL, worst_flip))
     ctx.oblige("correspondence:C10.filters", "correspondence", bad == 0,
-               "%d wavelets violate the filter-bank hypotheses (orthonormal/complete/rec=reversed dec)" % bad)
+               "%d wavelets violate the filter-bank hypotheses (orthonormal/complete/rec=reversed dec/dec_hi=alternating flip of dec_lo)" % bad)
 
 
 def _cmp(a, b, tol=ATOL_MODEL):
@@ -265,6 +288,59 @@ def stream_1d(ctx, rng, names):
                "%d disagreements between the Lean filter-bank/1-D pipeline model and pywt.dwt/idwt, sp.fwt/iwt, Wavelet(.H)" % bad)
 
 
+def stream_levels(ctx, rng, names):
+    """pywt.wavedec / pywt.waverec (mode='zero') vs the executed list model on UNPADDED signals: odd lengths, odd
+    intermediate lengths (the trimming rule of waverec: an approximation one longer than the next detail loses its
+    last sample), waverec on arbitrary integer coefficient lists of wavedec's lengths."""
+    import pywt
+    cases = []
+    for name in names:
+        L = pywt.Wavelet(name).dec_len
+        lens = [1, 2, 3, 5, 6, L - 1, L + 1, 2 * L + 3] + [rng.randint(1, 3 * L + 8) for _ in range(2 if ctx.tier == "quick" else 6)]
+        for n in sorted(set(l for l in lens if l >= 1)):
+            for J in ([1, 2, 3] if n <= 6 else [rng.choice([1, 2, 3, 4])]):
+                cases.append((name, n, J, [rng.randint(-9, 9) for _ in range(n)], rng.randint(0, 10 ** 6)))
+    lines, meta = [], []
+    for name, n, J, x, seed in cases:
+        _, f = filt(name)
+        L = pywt.Wavelet(name).dec_len
+        ns = [n]
+        for _ in range(J):
+            ns.append(pywt.dwt_coeff_len(ns[-1], L, "zero"))
+        clens = [ns[J]] + [ns[j] for j in range(J, 0, -1)]
+        r = np.random.RandomState(seed)
+        c = [r.randint(-9, 10, size=m) for m in clens]
+        trims = sum(1 for j in range(1, J) if ns[j] % 2 == 1)   # reconstructions of an odd-length approximation
+        lines.append("C10 wavedec %s level=%d x=%s" % (f, J, IL(x)))
+        meta.append(("wavedec", name, n, J, x, None, trims))
+        lines.append("C10 waverec %s lens=%s c=%s" % (f, IL(clens), IL(np.concatenate(c))))
+        meta.append(("waverec", name, n, J, None, c, trims))
+    replies = ctx.driver(lines)
+    bad = 0
+    for (kind, name, n, J, x, c, trims), r in zip(meta, replies):
+        model = [parse_rats(t) for t in r[3:].split(" | ")] if r.startswith("ok ") else r
+        try:
+            with warnings.catch_warnings():
+                warnings.simplefilter("ignore")
+                if kind == "wavedec":
+                    impl = [np.asarray(a) for a in pywt.wavedec(np.array(x, dtype=float), name, "zero", level=J)]
+                else:
+                    impl = [pywt.waverec([a.astype(float) for a in c], name, "zero")]
+        except Exception as e:  # noqa
+            impl = "err %s" % type(e).__name__
+        ctx.case(("levels", kind, name, n, J, json.dumps(x if x is not None else [a.tolist() for a in c])),
+                 sample=dict(op=kind, wavelet=name, n=n, level=J, reply=r[:100]) if ctx.evaluations % 97 == 0 else None)
+        ctx.count("levels:%s:%s" % (kind, "trim" if trims else "notrim"))
+        ok = isinstance(model, list) and isinstance(impl, list) and len(model) == len(impl) and \
+            all(_cmp(a, b) for a, b in zip(model, impl))
+        if not ok:
+            bad += 1
+            ctx.disagree("levels", dict(kind="levels", op=kind, wavelet=name, n=n, level=J),
+                         [np.asarray(a).tolist() for a in impl] if isinstance(impl, list) else impl, model)
+    ctx.oblige("correspondence:C10.levels", "correspondence", bad == 0,
+               "%d disagreements between the Lean wavedec/waverec list model (trimming rule) and pywt.wavedec/waverec" % bad)
+
+
 def norm_axes(axes, nd):
     return list(range(nd)) if axes is None else [a % nd for a in axes]
 
@@ -341,10 +417,11 @@ def stream_glue(ctx):
 
 
 def stream_separable(ctx, rng, names):
-    """N-D, level 1: fwt = composition of the per-axis 1-D model (pad + one level + [a|d] packing) along each
-    transformed axis, the other axes only padded — ties `qmf_isometry_rows/cols` to the real N-D transform."""
+    """N-D, level 1: fwt = pad every axis to even, then the executed 1-D model (one level, [a|d] packing) along each
+    transformed axis in the order given — exactly `fwtnSteps`; ties `fwtn_level1_isometry/_adjoint/_pr` (through
+    `fwt1_level1_eq`) to the real N-D transform."""
     import sigpy as sp
-    n_cases = 12 if ctx.tier == "quick" else 80
+    n_cases = 30 if ctx.tier == "quick" else 120
     bad = 0
     for _ in range(n_cases):
         name = rng.choice(names)
@@ -352,24 +429,38 @@ def stream_separable(ctx, rng, names):
         shape = tuple(rng.randint(1, 6 if nd == 2 else 4) for _ in range(nd))
         axes = rng.choice(subsets(nd))
         x = np.array([rng.randint(-9, 9) for _ in range(int(np.prod(shape)))], dtype=object).reshape(shape)
-        _, f = filt(name)
         tr = norm_axes(axes, nd)
+
+        def cost(nm):  # exact rational work of the model: output size x filter length (long filters in 3-D are ~1e6)
+            import pywt
+            L = pywt.Wavelet(nm).dec_len
+            out = 1
+            for a, n in enumerate(shape):
+                z = n + n % 2
+                out *= 2 * ((z + L - 1) // 2) if a in tr else z
+            return out * L
+        if cost(name) > (30000 if ctx.tier == "quick" else 120000):
+            name = rng.choice([w for w in names if cost(w) <= 30000] or ["haar"])
+        _, f = filt(name)
         cur = np.vectorize(Fraction, otypes=[object])(x)
         ok = True
+        # the steps of `fwtnSteps` (Props/C10.lean): every axis is padded to even (extra zero in front) ...
         for ax in range(nd):
+            if cur.shape[ax] % 2:
+                z = np.zeros(cur.shape[:ax] + (1,) + cur.shape[ax + 1:], dtype=object)
+                z[...] = Fraction(0)
+                cur = np.concatenate([z, cur], axis=ax)
+        # ... then one level of the executed 1-D model along each transformed axis, in the order given
+        for ax in tr:
             moved = np.moveaxis(cur, ax, -1)
             flat = moved.reshape(-1, moved.shape[-1])
-            if ax in tr:
-                lines = ["C10 fwt1 %s level=1 x=%s" % (f, ",".join(
-                    (str(v.numerator) if v.denominator == 1 else "%d/%d" % (v.numerator, v.denominator)) for v in row)) for row in flat]
-                rep = ctx.driver(lines)
-                if not all(r.startswith("ok ") for r in rep):
-                    ok = False
-                    break
-                rows = [[Fraction(t) for t in r[3:].split(",")] for r in rep]
-            else:  # non-transformed axis: centre pad only (extra zero in front for odd sizes)
-                n = flat.shape[1]
-                rows = [([Fraction(0)] if n % 2 else []) + list(row) for row in flat]
+            lines = ["C10 fwt1 %s level=1 x=%s" % (f, ",".join(
+                (str(v.numerator) if v.denominator == 1 else "%d/%d" % (v.numerator, v.denominator)) for v in row)) for row in flat]
+            rep = ctx.driver(lines)
+            if not all(r.startswith("ok ") for r in rep):
+                ok = False
+                break
+            rows = [[Fraction(t) for t in r[3:].split(",")] for r in rep]
             new = np.array(rows, dtype=object).reshape(moved.shape[:-1] + (len(rows[0]),))
             cur = np.moveaxis(new, -1, ax)
         ctx.case(("separable", name, shape, axes, x.ravel().tolist()))
@@ -509,7 +600,8 @@ def stream_packing_reified(ctx, rng, names):
 
 def correspond(ctx):
     warnings.simplefilter("ignore")  # pywt warns when an explicit level exceeds the max level (in the domain)
-    ctx.rule = ("filters: every orthogonal wavelet of pywt; 1-D: wavelet x length (incl. L-1, L, L+1, odd) x level x axes "
+    ctx.rule = ("filters: every orthogonal wavelet of pywt; levels: wavelet x unpadded length (odd incl.) x level, pywt.wavedec and "
+                "pywt.waverec on arbitrary integer coefficient lists (trimming rule); 1-D: wavelet x length (incl. L-1, L, L+1, odd) x level x axes "
                 "spelling with integer data, exact rational model vs float impl at 1e-10, both entry points; shapes: wavelet x "
                 "shape (1-3 D, odd/even/shorter than the filter) x axes subset (incl. negative/mixed/reordered) x level; "
                 "separable: N-D level-1 by per-axis composition of the model; packing/reified: labelled coefficient sets and "
@@ -522,7 +614,12 @@ def correspond(ctx):
         "formulas of Model/C10.lean (validated on every run by the dwt1d/separable/packing/shapes streams)",
         "pywt's filter taps satisfy completeness/orthonormality only to ~1e-11 (validated by the filters stream); the theorems are exact "
         "statements about filters satisfying them exactly",
-        "Orthonormal -> Complete (polyphase argument) is not proved; both are validated numerically for every wavelet",
+        "Complete is proved from the orthonormality of dec_lo alone when dec_hi is its alternating flip (complete_of_qmf_pair); that "
+        "dec_hi IS the alternating flip of dec_lo is checked for every pywt wavelet on every run (filters stream, observed exact); the general "
+        "Orthonormal -> Complete (polyphase / dimension count, g not assumed to be the flip) is not proved",
+        "N-d: proved at level 1 for an arbitrary list of axes (function model, tied to the executed 1-D model by fwt1_level1_eq and the "
+        "separable stream); multi-level N-d (pywt recurses on the approximation block only and coeffs_to_array lays the detail blocks out at "
+        "offsets given by the approximation shapes) is validated by the search oracle and the packing/shapes streams, not proved",
         "complex inputs: PyWavelets transforms real and imaginary parts separately (validated by the search oracle on complex data)",
     ]
     ctx.trusted += ["PyWavelets %s (C implementation of dwt/idwt and its Python multilevel/packing layer): contract validated by "
@@ -531,6 +628,7 @@ def correspond(ctx):
     import time
     for fn, args in [(stream_filters, ()), (stream_glue, ()),
                      (stream_1d, (rng, names if ctx.tier == "thorough" else names[:: 2] + names[-3:])),
+                     (stream_levels, (rng, names if ctx.tier == "thorough" else names[1:: 2] + names[-2:])),
                      (stream_shapes, (rng, names)), (stream_separable, (rng, names)),
                      (stream_packing_reified, (rng, names))]:
         t = time.time()
@@ -631,6 +729,22 @@ def check_oracle(ctx, c, origin):
     return ok
 
 
+def _packed_size(shape, axes, L, level):
+    """number of elements of the packed coefficient array (1-D packed length per transformed axis, padded length otherwise)"""
+    tr = norm_axes(axes, len(shape))
+    out = 1
+    for a, n in enumerate(shape):
+        z = n + n % 2
+        if a in tr:
+            ns = [z]
+            for _ in range(level):
+                ns.append((ns[-1] + L - 1) // 2)
+            out *= ns[-1] + sum(ns[1:])
+        else:
+            out *= z
+    return out
+
+
 def gen_oracle_cases(ctx, rng, names, budget):
     shapes = list(SHAPES_BASE) + [rand_shape(rng) for _ in range(int(6 * budget))]
     cases = []
@@ -643,6 +757,10 @@ def gen_oracle_cases(ctx, rng, names, budget):
                 for level in LEVELS:
                     # long filters in 3-D give coefficient arrays of ~(2L)^3 elements: sample those sparsely
                     if len(shape) == 3 and L > 24 and level != 1 and rng.random() < 0.85:
+                        continue
+                    # quick tier: a 3-level transform with a 100-tap filter in 3-D has ~3e7 coefficients (15 s per case);
+                    # keep the case only when the packed coefficient array stays small (thorough keeps them all)
+                    if budget < 8 and level is not None and _packed_size(shape, axes, L, level) > 300000:
                         continue
                     cases.append(dict(wavelet=name, shape=list(shape), axes=None if axes is None else list(axes), level=level,
                                       cplx=rng.random() < 0.5, seed=rng.randint(0, 10 ** 6)))
@@ -662,6 +780,10 @@ def _case_from_disagreement(d, rng):
         for cplx in (False, True):
             out.append(dict(wavelet=cc["wavelet"], shape=[n], axes=None if p["axes"] is None else list(p["axes"]), level=p["level"],
                             cplx=cplx, seed=rng.randint(0, 10 ** 6)))
+    elif cc.get("kind") == "levels":
+        for cplx in (False, True):
+            out.append(dict(wavelet=cc["wavelet"], shape=[cc["n"]], axes=None, level=cc["level"], cplx=cplx,
+                            seed=rng.randint(0, 10 ** 6)))
     elif cc.get("kind") == "padcrop":
         for name in ("haar", "db4"):
             out.append(dict(wavelet=name, shape=[cc["i"]], axes=None, level=1, cplx=False, seed=rng.randint(0, 10 ** 6)))
